@@ -309,7 +309,12 @@ func history(r *vh.Run, hidx int) {
 				if idleExpiry && (n == nops/3 || n == 2*nops/3) {
 					time.Sleep(time.Duration(27+crng.Intn(8)) * time.Millisecond)
 				}
-				switch k := crng.Intn(15); {
+				k := crng.Intn(15)
+				if hidx%3 == 0 && crng.Intn(2) == 0 {
+					// a third of the histories concentrate on the shared artifacts: push again / delete / probe / list
+					k = []int{12, 12, 13, 14, 11}[crng.Intn(5)]
+				}
+				switch {
 				case k == 12: // push a shared artifact (again)
 					a := apool[crng.Intn(len(apool))]
 					t0 := rc.now()
